@@ -323,6 +323,8 @@ fn parse_helper(pat: &mut &str, result: &mut Vec<Atom>) -> Result<(), PatError> 
 		depth: u8,
 	}
 	let mut subs = Vec::<SubPattern>::new();
+	// Number of atoms when the last subpattern was closed
+	let mut sub_end = 0;
 	while let Some(mut chr) = iter.next().cloned() {
 		match chr {
 			// Follow signed 1 byte jump
@@ -404,6 +406,7 @@ fn parse_helper(pat: &mut &str, result: &mut Vec<Atom>) -> Result<(), PatError> 
 					}
 					result[brk] = Atom::Break(brk_offset as u8);
 				}
+				sub_end = result.len();
 			},
 			// Skip many operator
 			b'[' => {
@@ -523,11 +526,13 @@ fn parse_helper(pat: &mut &str, result: &mut Vec<Atom>) -> Result<(), PatError> 
 				// 	Some(Atom::Skip(skip)) if *skip != PTR_SKIP && *skip < 127i8 => *skip += 1,
 				// 	_ => result.push(Atom::Skip(1)),
 				// };
-				// Coalescence skips together
-				if let Some(Atom::Skip(skip)) = result.last_mut() {
-					if *skip != PTR_SKIP && *skip < 255u8 {
-						*skip += 1;
-						continue;
+				// Coalescence skips together, but never into the last alternative of a closed subpattern
+				if result.len() > sub_end {
+					if let Some(Atom::Skip(skip)) = result.last_mut() {
+						if *skip != PTR_SKIP && *skip < 255u8 {
+							*skip += 1;
+							continue;
+						}
 					}
 				}
 				result.push(Atom::Skip(1));
